@@ -259,6 +259,8 @@ def validate(problem, timed_steps, variant=None) -> Verdict:
             dcs.append("durative action without duration")
         if not dur and d is not None:
             dcs.append("instantaneous action with a duration")
+        if dur and d is not None and d < 0:
+            dcs.append("negative duration")  # happenings before the action's own start: nothing sensible to demand
         steps.append((st, act, tuple(args), d, dur))
     if getattr(problem, "processes", None) or getattr(problem, "events", None):
         raise Unsupported("processes / events")
@@ -288,9 +290,6 @@ def validate(problem, timed_steps, variant=None) -> Verdict:
         end = st + d
         instants.add(end)
         durs.append((i, st, d, act, params))
-        if d < 0:
-            features.add("negative-duration")
-            dcs.append("negative duration")
         for timing, el in act.effects.items():
             t = _abs(timing, st, d)
             inter = Fraction(timing.delay) != 0
@@ -298,7 +297,7 @@ def validate(problem, timed_steps, variant=None) -> Verdict:
                 features.add("intermediate-effect")
                 if v.get("no_intermediate"):
                     continue
-            if d >= 0 and not (st <= t <= end):
+            if not (st <= t <= end):
                 dcs.append("effect scheduled outside its action's span")
             instants.add(t)
             effs.setdefault(t, []).append((i, params, list(el)))
@@ -309,7 +308,7 @@ def validate(problem, timed_steps, variant=None) -> Verdict:
                 features.add("intermediate-condition")
                 if v.get("no_intermediate"):
                     continue
-            if d >= 0 and (lo < st or hi > end):
+            if lo < st or hi > end:
                 dcs.append("condition scheduled outside its action's span")
             instants.update((lo, hi))
             for c in cl:
